@@ -8,6 +8,8 @@ from .. import paths, waiters
 from ..core import FUNC, call_attr, calls_in, const, dotted, kwarg, is_const, norm, text, walk_local
 
 EXPLANATION = [
+    'C09.refusal-closes: ClassicChannel._disconnect_sync is called only from disconnect() and the configuration handlers; a refused Connection Response sets the state to CLOSED directly.',
+    'C09.primitive-rebinding: no method of a bumble.l2cap class replaces an asyncio.Event / Lock / Semaphore created in __init__ (a pending drain() waits on the old object for ever).',
     'C09.teardown-contained: each abort() in the loops of ChannelManager.on_disconnection is inside a try / except Exception (no re-raise) within the loop body: one failing close listener does not stop the teardown of the link.',
     'C09.disconnect-check-act: ClassicChannel / LeCreditBasedChannel.disconnect have no await between the state test and the statement that changes the state (test and start of the procedure are one event-loop step).',
     'C09.disconnect-request-answered: ClassicChannel / LeCreditBasedChannel.on_disconnection_request send exactly one Disconnection Response and release the channel on every path (no silent discard of a request the manager routed to the channel).',
@@ -1202,7 +1204,40 @@ def teardown_contained(ctx):
         R.check(ok, rule, f'{CM}.on_disconnection | abort #{i + 1} ({norm(c)})', 'contained inside the loop', f'`{norm(c)}` is not contained inside its loop: a close listener that raises on one channel ends the teardown - the other channels of the link stay open (anything waiting on them is never released) and identifiers / pending tables of the connection are never removed', p.loc(c))
 
 
+def primitive_rebinding_rule(ctx):
+    from ..generic_rules import primitive_rebinding
+    primitive_rebinding(ctx, 'C09.primitive-rebinding', ['bumble.l2cap'], floor=1)
+
+
+def refusal_closes(ctx):
+    """A Disconnection Request is sent only for a channel the peer has: `_disconnect_sync` (WAIT_DISCONNECT + request) is
+    called from disconnect() and from the configuration handlers (mode mismatch) and from nowhere else.  A refused
+    Connection Response closes the channel at once - the peer never allocated it, no Disconnection Response will ever
+    come, and create_classic_channel keeps a WAIT_DISCONNECT channel registered until one does."""
+    R, p = ctx.r, ctx.p
+    rule = 'C09.refusal-closes'
+    ci = p.cls(CC)
+    if ci is None:
+        R.bad(rule, CC, 'anchor missing')
+        return
+    ALLOWED = ('disconnect', 'on_configure_request', 'on_configure_response')
+    n = 0
+    for name, fn in sorted(ci.methods.items()):
+        for c in [x for x in calls_in(fn) if dotted(x.func) == 'self._disconnect_sync']:
+            n += 1
+            R.check(name in ALLOWED, rule, f'{CC}.{name} | _disconnect_sync', 'the peer has the channel', f'{name} starts a disconnection procedure (`self._disconnect_sync()`) for a channel the peer may never have allocated: no Disconnection Response comes, the channel stays in WAIT_DISCONNECT in the table and its CID is never free again', p.loc(c))
+    R.check(n >= 2, rule, f'{CC} | _disconnect_sync callers', f'{n}', f'only {n} found')
+    fn = ci.methods.get('on_connection_response')
+    if fn is None:
+        R.bad(rule, f'{CC}.on_connection_response', 'anchor missing')
+        return
+    closes = [c for c in calls_in(fn) if dotted(c.func) == 'self._change_state' and c.args and norm(c.args[0]).endswith('State.CLOSED')]
+    R.check(bool(closes), rule, f'{CC}.on_connection_response | refusal', 'a refused open goes to CLOSED', 'on_connection_response no longer closes a refused channel', p.loc(fn))
+
+
 RULES = [
+    ('C09.refusal-closes', refusal_closes),
+    ('C09.primitive-rebinding', primitive_rebinding_rule),
     ('C09.teardown-contained', teardown_contained),
     ('C09.disconnect-check-act', disconnect_check_act),
     ('C09.disconnect-request-answered', disconnect_request_answered),
